@@ -4,7 +4,8 @@
    (they are premises, not axioms: Print Assumptions is closed). *)
 From Coq Require Import List NArith Bool.
 From Coq.Strings Require Import Byte.
-From Peppi Require Import Base.Bytes Base.Outcome Gen.Funs Model.Ubjson Model.Start Model.Parse Model.Reader Model.Slpp Proofs.SlppProof.
+From Peppi Require Import Base.Bytes Base.Outcome Gen.Funs Model.Ubjson Model.Start Model.Parse Model.Reader Model.Writer Model.Recorder Model.Slpp
+  Proofs.SlppProof Proofs.TableFacts Proofs.Corollaries.
 Import ListNotations.
 
 (* Every game the .slp reader can produce ("coherent": its start/end records are the parse of their retained raw
@@ -29,5 +30,22 @@ Theorem C02_write_refuses_only_new_versions :
     slpp_write enc_peppi enc_meta enc_start enc_end enc_frames c g = Err EInvalid.
 Proof. exact slpp_write_refuses. Qed.
 
+(* the whole chain on EVERY well-formed replay: read the .slp, write the game as .slpp (any compression), read it back,
+   write it as .slp: the output is the input file, byte for byte (library codecs as above) *)
+Theorem C02_full_chain :
+  forall enc_peppi dec_peppi enc_meta dec_meta enc_start enc_end enc_frames dec_frames,
+  (forall v h q, dec_peppi (enc_peppi v h q) = Some (v, h, q)) ->
+  (forall m, dec_meta (enc_meta m) = Some m) ->
+  (forall c v ports fr b, enc_frames c v ports fr = Ok b -> dec_frames v b = Ok fr) ->
+  forall r st h c hash es,
+    wf_replay r = true -> game_start (r_start r) = ROk st ->
+    let g := game_of {| o_skip := false; o_hash := h |} r st (end_of r) in
+    slpp_write enc_peppi enc_meta enc_start enc_end enc_frames c {| sg_game := g; sg_hash := hash |} = Ok es ->
+    slp_read {| o_skip := false; o_hash := h |} (emit r) = Ok (g, []) /\
+    exists g2, slpp_read dec_peppi dec_meta dec_frames false es = Ok {| sg_game := g2; sg_hash := hash |} /\
+               slp_write g2 = Ok (emit r).
+Proof. exact c02_full_chain. Qed.
+
 Print Assumptions C02_roundtrip.
+Print Assumptions C02_full_chain.
 Print Assumptions C02_write_refuses_only_new_versions.
